@@ -7,10 +7,10 @@ PROP = dict(
         dict(driver="dispatch", binary="zsafe", quick=3000, thorough=60000, shard=500,
              monitors=["dispatch_nil_safe (an item satisfying the archiver's invariant is processed without a panic)",
                        "not_archived_untouched (an item in another state is returned as it came)"]),
-        dict(driver="fuzz", binary="zsafe", quick=20000, thorough=300000, shard=4000,
+        dict(driver="fuzz", binary="zsafe", quick=16000, thorough=300000, shard=4000,
              monitors=["no_panic (recover() in the child caught nothing)",
-                       "no_hang (the child answered within the watchdog)",
-                       "no_crash (the child process survived: no fatal error, no out-of-memory)"]),
+                       "no_hang (the child answered within the watchdog; a missing answer counts when reproduced on a fresh child with the watchdog doubled)",
+                       "no_crash (the child process survived: no fatal error, no out-of-memory; a death counts when reproduced on a fresh child)"]),
     ],
     partial="The theorems cover ZENO'S OWN byte-level code only (hasFileExtension, isLikelyJSON, GetShortID, the Link header parser, "
             "extractFromScriptContent, srcsetURLs, the nil-safety of postprocessItem / extractAssets / extractOutlinks under the "
